@@ -1,4 +1,4 @@
-(* C16 classifier: 0 Agree | 1 ModelMismatch | 2 PropertyFail | 9 harness error.
+(* C16 classifier: 0 Agree | 1 ModelMismatch | 2 PropertyFail | 101 known finding C16-K1 | 9 harness error.
    A case is one configuration document, the header and records the csv reader produced for a
    generated statement (with chrono's reading of each date), the transactions that came out of
    import::import + to_double_entry, and what report::process made of a funding transaction
@@ -221,25 +221,42 @@ Fixpoint consistent (acct : str) (run : list (str * Qc)) (ts : list stxn) : opti
       end
   end.
 
-Definition spec_accepted (e : entry pat) (opening : list (str * dec)) (ts : list stxn) (p : proc_obs) : bool :=
+(* when does the property claim acceptance: an asset account, printable names, non-zero rates,
+   and a running balance that agrees with every stated balance (the result: the final balance) *)
+Definition accept_claim (e : entry pat) (opening : list (str * dec)) (ts : list stxn) : option (list (str * Qc)) :=
   match e_account_type e with
-  | Liability => true
+  | Liability => None
   | Asset =>
-      if forallb txn_balanced ts && forallb rates_ok ts
-         && negb (str_eqb (e_account e) equity_opening)
+      if forallb rates_ok ts && negb (str_eqb (e_account e) equity_opening)
          && forallb (fun cv => nonempty (fst cv)) opening
-      then match consistent (e_account e) (map (fun cv => (fst cv, dec_value (snd cv))) opening) ts with
-           | Some final =>
-               match p with
-               | PAccepted f =>
-                   forallb (fun cv => Qc_eq_bool (run_get (fst cv) final)
-                                        (match sget (fst cv) f with Some d => dec_value d | None => 0 end))
-                           (final ++ map (fun cd => (fst cd, 0)) f)
-               | _ => false
-               end
-           | None => true
-           end
-      else true
+      then consistent (e_account e) (map (fun cv => (fst cv, dec_value (snd cv))) opening) ts
+      else None
+  end.
+
+Definition accepted_as (final : list (str * Qc)) (p : proc_obs) : bool :=
+  match p with
+  | PAccepted f =>
+      forallb (fun cv => Qc_eq_bool (run_get (fst cv) final)
+                           (match sget (fst cv) f with Some d => dec_value d | None => 0 end))
+              (final ++ map (fun cd => (fst cd, 0)) f)
+  | _ => false
+  end.
+
+Definition spec_accepted (e : entry pat) (opening : list (str * dec)) (ts : list stxn) (p : proc_obs) : bool :=
+  match accept_claim e opening ts with
+  | Some final => accepted_as final p
+  | None => true
+  end.
+
+(* known finding C16-K1: a consistent asset statement one of whose rows does not balance as
+   printed (an extracted secondary amount that is not exactly amount x rate, e.g. rounded by the
+   bank, or a charge without a conversion) is refused by the book-keeping as unbalanced *)
+Definition known_class_unbalanced_row (e : entry pat) (opening : list (str * dec)) (ts : list stxn)
+           (p : proc_obs) : bool :=
+  match accept_claim e opening ts with
+  | Some _ => negb (forallb txn_balanced ts)
+              && match p with PRejected 1%N => true | _ => false end
+  | None => false
   end.
 
 Definition spec_holds (e : entry pat) (c : case) (m : ires (list stxn)) : bool :=
@@ -262,14 +279,18 @@ Definition classify (c : case) : N :=
   match select [q_doc c] (q_path c) with
   | Some (inl e) =>
       let m := model_import e (q_header c) (q_rows c) in
-      if negb (spec_holds e c m) then 2%N
-      else if imp_agrees (q_imp c) m
-              && match m, q_proc c with
-                 | IOk ts, p => proc_agrees (e_account e) p (model_process (e_account e) (q_opening c) ts)
-                 | _, PNotRun => true
-                 | _, _ => false
-                 end
-           then 0%N else 1%N
+      let same := imp_agrees (q_imp c) m
+                  && match m, q_proc c with
+                     | IOk ts, p => proc_agrees (e_account e) p (model_process (e_account e) (q_opening c) ts)
+                     | _, PNotRun => true
+                     | _, _ => false
+                     end in
+      if negb (spec_holds e c m) then
+        match q_imp c with
+        | ImpOk ts => if same && known_class_unbalanced_row e (q_opening c) ts (q_proc c) then 101%N else 2%N
+        | _ => 2%N
+        end
+      else if same then 0%N else 1%N
   | _ => 9%N
   end.
 
